@@ -105,6 +105,13 @@ def b_coq(b):
     return f"(bnum {cz(b[0])} {cz(b[1])})"
 
 
+def as_int(x, flip):
+    """the same number as an int when it is integral (0 and 1 above all) and the call form asks for it"""
+    if flip and isinstance(x, float) and x == int(x) and abs(x) < 10**6:
+        return int(x)
+    return x
+
+
 def is_numeric(x):
     return isinstance(x, numbers.Number) and not isinstance(x, bool)
 
@@ -304,6 +311,8 @@ class Runner:
         self.recipes = {}
         self.frozen_u = {}          # cid -> U_full observed when the frozen copy was taken
         self.fail = None
+        self.nstep = 0
+        self.read_note = None
 
     def flag(self, i, step, msg):
         if self.fail is None:
@@ -337,22 +346,36 @@ class Runner:
         k = s[0]
         if k == "pnew":
             _, V, B, LAB = s
-            bounds = None if B is None else ("ab" if B == "bad" else [b_py(b) for b in B])
+            # the same call through its equivalent forms, chosen by the parameter's index: bounds as a tuple instead of a
+            # list, positional arguments, integral numbers as int instead of float
+            form = len(self.params) % 4
+            bounds = None if B is None else ("ab" if B == "bad" else [as_int(b_py(b), form == 1) for b in B])
+            if isinstance(bounds, list) and form in (1, 2):
+                bounds = tuple(bounds)
             label = None if LAB is None else (3 if LAB == "bad" else f"L{LAB}")
-            p = lw.Parameter(v_py(V), bounds=bounds, label=label)
-            self.reg(p, v_py(V), *(bounds if bounds else (None, None)))
+            v = as_int(v_py(V), form in (1, 3))
+            if form == 2:
+                p = lw.Parameter(v, bounds, label)
+            elif form == 3 and bounds is None and label is None:
+                p = lw.Parameter(v)
+            else:
+                p = lw.Parameter(v, bounds=bounds, label=label)
+            self.reg(p, v, *(bounds if bounds else (None, None)))
             return []
         if k == "pset":
-            self.P(s[1]).set(v_py(s[2]))
-            self.cur[s[1]] = v_py(s[2])
+            v = as_int(v_py(s[2]), (s[1] + self.nstep) % 2 == 1)
+            self.P(s[1]).set(v)
+            self.cur[s[1]] = v
             return []
         if k == "pmin":
-            self.P(s[1]).min_bound = b_py(s[2])
-            self.lo[s[1]] = b_py(s[2])
+            b = as_int(b_py(s[2]), (s[1] + self.nstep) % 2 == 1)
+            self.P(s[1]).min_bound = b
+            self.lo[s[1]] = b
             return []
         if k == "pmax":
-            self.P(s[1]).max_bound = b_py(s[2])
-            self.hi[s[1]] = b_py(s[2])
+            b = as_int(b_py(s[2]), (s[1] + self.nstep) % 2 == 1)
+            self.P(s[1]).max_bound = b
+            self.hi[s[1]] = b
             return []
         if k == "dnew":
             kw = {}
@@ -414,8 +437,32 @@ class Runner:
                 # a rewrite of the live circuit just before the read: remove_non_adjacent_bs / compress_mode_swaps
                 # preserve U_full (property C09), so the model treats the step as a plain read - and the rewritten
                 # circuit must keep following its Parameters in every later step
-                getattr(c, s[2])()
-            u = c.U_full
+                try:
+                    getattr(c, s[2])()
+                except (ValueError, TypeError):
+                    # remove_non_adjacent_bs re-creates the beam splitter and so validates a LITERAL reflectivity; a frozen
+                    # copy taken while a Parameter held an invalid number carries such a literal.  The rewrite then refuses
+                    # and leaves the circuit as it was (the read below still has to give the compilation error); on a
+                    # circuit whose values are all valid a rewrite must not raise
+                    if recipe_invalid(self.recipes[s[1]], self.cur) is None:
+                        raise
+            try:
+                u = c.U_full
+            except Exception as e:
+                # Circuit.U is the other documented read: it has to fail in the same way
+                try:
+                    c.U  # noqa: B018
+                    self.read_note = f"U_full raised {type(e).__name__} but Circuit.U returned a matrix"
+                except Exception as e2:  # noqa: BLE001
+                    if type(e2) is not type(e):
+                        self.read_note = f"U_full raised {type(e).__name__}, Circuit.U raised {type(e2).__name__}"
+                raise
+            # ... and otherwise be the block of the real modes, at the parameters' CURRENT values, on every read
+            n = c.n_modes
+            for _ in range(2):
+                uu = np.array(c.U)
+                if uu.shape != (n, n) or not np.allclose(uu, u[:n, :n], atol=1e-9, rtol=0):
+                    self.read_note = "Circuit.U is not the leading block of U_full read at the same moment"
             return [int(u.shape[0]), [[[float(x.real), float(x.imag)] for x in row] for row in u]]
         if k == "rparams":
             return [self.pid_of(p) for p in self.pool[s[1]].get_all_params()]
@@ -501,6 +548,7 @@ class Runner:
         obs = []
         for i, s in enumerate(steps):
             before = self.snap()
+            self.nstep = i
             try:
                 out = {"ok": self.call(s)}
             except NotImplementedError:
@@ -510,6 +558,9 @@ class Runner:
             after = self.snap()
             obs.append([out, after])
             k = s[0]
+            if self.read_note:
+                self.flag(i, s, self.read_note)
+                self.read_note = None
             if "err" in out and after != before:
                 self.flag(i, s, f"rejected call ({out['err']}) changed the parameters: {before} -> {after}")
             if k.startswith("r") and after != before:
@@ -1097,7 +1148,9 @@ class C10:
             "creation with valid/invalid bounds, direct set, set through a ParameterDict, bound changes (None, equal to the value, on the wrong "
             "side, non-numeric), dict insert/overwrite/remove, bs/ps/loss with Parameters (also bs/ps(..., loss=Parameter)), heralds, add of "
             "parameterised sub-circuits grouped and not, copy, copy(freeze_parameters=True), unpack_groups, +, and reads of U_full, "
-            "get_all_params, get/min_bound/max_bound/has_bounds and the dict accessors; after every step the value and bounds of EVERY parameter "
+            "get_all_params, get/min_bound/max_bound/has_bounds and the dict accessors; Parameter(...) through its call forms (bounds as list "
+            "or tuple, positional arguments, integral numbers as int or float); every U_full read is accompanied by two reads of Circuit.U "
+            "(same block, same exception class); after every step the value and bounds of EVERY parameter "
             "and the contents of every dict are compared with the model. Plus every call sequence of length 2 (thorough: 3) over a 13-call "
             "alphabet from three initial parameters. Non-trivial history = an accepted update of a parameter some circuit uses, a later "
             "successful U_full read and a rejected parameter call; non-trivial sequence pack = accepted and rejected calls both present; "
